@@ -66,7 +66,14 @@ class ScriptedOptimizer(Optimizer):
     def is_parallel(self) -> bool:
         return self._parallel
 
-    def _point(self, pid: int, x0: np.ndarray) -> np.ndarray:
+    def _point(self, pid: Any, x0: np.ndarray) -> np.ndarray:
+        mask = self._config.variables.mask
+        if isinstance(pid, dict):
+            # a step relative to the start point (an algorithm that continues from where it was started)
+            d = np.asarray(pid["rel"], dtype=np.float64)
+            if mask is not None and d.size == mask.size:
+                d = d[mask]
+            return np.array(x0, dtype=np.float64) + d
         if pid < 0:
             return np.array(x0, dtype=np.float64)
         x = np.asarray(self._points[pid], dtype=np.float64)
